@@ -272,15 +272,16 @@ TIGER_LAYOUTS = [dict(), dict(nt_order='pre'), dict(nt_order='rev'), dict(edge_o
 OPTION_SETS = {
     'export': [{}, {'continuous': True}, {'gf_split': True}, {'gf_split': True, 'gf_separator': '#'},
                {'replace_parens': True}, {'gz': True}, {'enc': 'latin-1'}, {'enc': 'utf-16'},
-               {'continuous': True, 'gf_split': True, 'replace_parens': True}],
+               {'continuous': True, 'gf_split': True, 'replace_parens': True}, {'gz': True, 'enc': 'latin-1'}],
     'brackets': [{}, {'gf_split': True}, {'gf_split': True, 'gf_separator': '#'}, {'replace_parens': True},
                  {'brackets_firstid': 17}, {'brackets_firstid': 0}, {'brackets_emptypos': True}, {'gz': True}, {'enc': 'latin-1'},
-                 {'enc': 'utf-16'}, {'noquiet': True}, {'brackets_firstid': 5, 'gf_split': True, 'replace_parens': True}],
+                 {'enc': 'utf-16'}, {'noquiet': True}, {'brackets_firstid': 5, 'gf_split': True, 'replace_parens': True},
+                 {'gz': True, 'enc': 'latin-1'}],
     'discobrackets': [{}, {'disco_reordered': True}, {'gf_split': True}, {'brackets_firstid': 9}, {'gz': True},
                       {'replace_parens': True}, {'brackets_firstid': 0, 'disco_reordered': True}],
     'tigerxml': [{}, {'continuous': True}, {'gf_split': True}, {'gf_split': True, 'gf_separator': '#'},
                  {'replace_parens': True}, {'gz': True}, {'enc': 'latin-1'}, {'enc': 'utf-16'}, {'noquiet': True},
-                 {'continuous': True, 'gf_split': True, 'replace_parens': True}],
+                 {'continuous': True, 'gf_split': True, 'replace_parens': True}, {'gz': True, 'enc': 'utf-16'}],
 }
 PAREN = [('(', 'LRB'), ('-LRB-', 'LRB'), ('[', 'LSB'), ('-LSB-', 'LSB'), ('{', 'LCB'), ('-LCB-', 'LCB'),
          (')', 'RRB'), ('-RRB-', 'RRB'), (']', 'RSB'), ('-RSB-', 'RSB'), ('}', 'RCB'), ('-RCB-', 'RCB')]
